@@ -340,6 +340,13 @@ int SimCondWait(pthread_cond_t* c, pthread_mutex_t* m, uint64_t deadline)
     R.mutex_unlock(m);
     for (T* t : g_threads)
         if (t->st == B_MUTEX && t->obj == m) MakeRunnable(t);
+    if (g_cfg.spurious_wakeups && (Rnd() & 15) == 0) {
+        // fault: the wait returns although nobody signalled (POSIX allows it); still a scheduling point
+        ++g_stats.spurious;
+        Schedule();
+        SimMutexLock(m);
+        return 0;
+    }
     BlockOn(B_COND, c, deadline);
     bool timed_out = me->timed_out;
     Acquire(me, c);
@@ -382,6 +389,16 @@ void Arm(const Config& cfg)
     g_threads.push_back(m);
     t_self = m;
     g_armed = true;
+}
+
+void RedrawPct(uint64_t expected_points_from_now)
+{
+    if (!g_armed || g_cfg.policy != Policy::PCT) return;
+    g_pct_points.clear();
+    for (int i = 0; i + 1 < g_cfg.pct_depth; ++i) g_pct_points.insert(g_stats.points + 1 + Rnd() % std::max<uint64_t>(1, expected_points_from_now));
+    for (T* t : g_threads)
+        if (t->st != FINISHED) t->prio = (int64_t)(Rnd() % 1000);
+    g_pct_low = 0;
 }
 
 void Disarm()
